@@ -76,7 +76,8 @@ def prop(pid, files, extra=(), streams=(), direct=(), trusted=(), assumptions=()
 
 
 prop("C01", ["PepitVerif/Props/C01.lean", "PepitVerif/Math/CvxSem.lean", "PepitVerif/Math/Certificate.lean"],
-     streams=[stream("resolve (scripted solver, tagged duals, returned dual value)", "resolve", 150, 3000)],
+     streams=[stream("resolve (scripted solver, tagged duals, returned dual value, function-level LMIs, primal mode)", "resolve", 150, 3000),
+              stream("tree (symmetrize_dict / prune_dict / constant / remaining terms of check_feasibility on random expressions)", "tree", 150, 3000, offset=73)],
      direct=[oracle("c01_certificate", 28, 300)],
      trusted=["scripted wrapper (Wrapper subclass) standing for the solver in symbolic streams"],
      assumptions=["that the numbers a real solver returns satisfy KKT is runtime behaviour: monitored by the numeric oracle, not proved"])
